@@ -1,8 +1,13 @@
 import Qryn.Proofs.Encode
+import Qryn.Read.EncodeMore
+import Qryn.Gen.C15Batch
 /-! Line protocol for C15. Words:
     entry  = `<n|e|f>:<fp>:<ts>:<msg hex>:<val hex>:<labels>`, labels = `khex=vhex;…` or `-`
     batches = entries, a word `B` starts the next batch
-    answers: chunk lists as comma-joined hex; documents in the dump syntax of `dump`. -/
+    answers: chunk lists as comma-joined hex; documents in the dump syntax of `dump`.
+    `c15consts` = the values of `Gen.C15Batch.consts` (batching constants regenerated from the source), comma-joined.
+    item lists (`c15search`, `c15searchql` with `B`, `c15trace`): hex element texts; answer = hex body.
+    `c15promvector` / `c15prommatrix`: words `<labels>:<ttok hex>=<val hex>;…` (labels as for entries). -/
 namespace Driver.C15
 open Qryn Qryn.Json Qryn.Encode
 
@@ -62,6 +67,36 @@ def parseRows (ws : List String) : Option (List Bytes) := ws.mapM ofHex
 def parseOrder (s : String) : Option (List Nat) :=
   if s = "-" then some [] else (s.splitOn ",").mapM (·.toNat?)
 
+/-- words → batches of byte strings; `B` closes the current batch -/
+def parseItemBatches (ws : List String) : Option (List (List Bytes)) :=
+  let rec goB (cur : List Bytes) (acc : List (List Bytes)) : List String → Option (List (List Bytes))
+    | [] => some (acc ++ [cur])
+    | w :: r =>
+      if w = "B" then goB [] (acc ++ [cur]) r
+      else match ofHex w with
+        | some e => goB (cur ++ [e]) acc r
+        | none => none
+  goB [] [] ws
+
+def parsePoint (s : String) : Option (Bytes × Bytes) :=
+  match s.splitOn "=" with
+  | [t, v] => do let t' ← ofHex t; let v' ← ofHex v; pure (t', v')
+  | _ => none
+
+def parsePromSeries (w : String) : Option PromSeries :=
+  match w.splitOn ":" with
+  | [lbl, pts] => do
+    let l ← parseLabels lbl
+    let ps ← (if pts = "" then some [] else (pts.splitOn ";").mapM parsePoint)
+    pure ⟨l, ps⟩
+  | _ => none
+
+def parsePromSample (w : String) : Option PromSample := do
+  let s ← parsePromSeries w
+  match s.points with
+  | [p] => pure ⟨s.labels, p.1, p.2⟩
+  | _ => none
+
 def parseOut (r : Option (JVal × Bytes)) : String :=
   match r with
   | none => "none"
@@ -100,5 +135,19 @@ def handle : List String → Option String
     let t' ← t.toInt?
     let v' ← ofHex v
     pure (chunksOut (scalarChunks t' v'))
+  | ["c15getterbatch"] => some (toString Gen.C15Batch.getterBatch)
+  | ["c15consts"] => some (",".intercalate (Gen.C15Batch.consts.map (fun c => toString c.2.2.2)))
+  | "c15search" :: ws => (parseRows ws).map (fun r => hexOut (searchBody r))
+  | "c15trace" :: ws => (parseRows ws).map (fun r => hexOut (traceBody r))
+  | "c15searchql" :: ws => (parseItemBatches ws).map (fun b => hexOut (searchQLBody b))
+  | "c15promvector" :: ws => (ws.mapM parsePromSample).map (fun ss => hexOut (promVectorBody ss))
+  | "c15prommatrix" :: ws => (ws.mapM parsePromSeries).map (fun ss => hexOut (promMatrixBody ss))
+  | ["c15promerror", h] => (ofHex h).map (fun m => hexOut (print (promErrorDoc m)))
+  | ["c15buildinfo", h] => (ofHex h).map (fun v => hexOut (print (buildinfoDoc v)))
+  | ["c15queryconst", t] => t.toInt?.map (fun t => hexOut (print (queryConstDoc t)))
+  | "c15labelsbuf" :: n :: ws => do
+    let n' ← n.toNat?
+    let b ← parseItemBatches ws
+    pure (chunksOut (listBuffered labelsPre (Qryn.SepEnc.everyN n') (b.map (·.map stdstr))))
   | _ => none
 end Driver.C15
